@@ -786,4 +786,6 @@ def run(ctx):
                        'symmetric multipliers, boundary re-typing, cylinder radius on model cross-sections, the b/2 box tilt, refusals, old_id, the linear field. Not decided: the disregistry integral, overlaps.')
     # "the disregistry across the slip plane accumulates to one Burgers vector": for isotropic constants the jump comes from the branch of θ in the fallback solver
     from .c12 import theta_branch
-    ctx.run_rules([orient, shifts, monopole, boundary, array, array_model, deleted_count, own_planes, disregistry, theta_branch])
+    from .. import lints as _lints
+    ctx.run_rules([orient, shifts, monopole, boundary, array, array_model, deleted_count, own_planes, disregistry, theta_branch,
+                   lambda c: _lints.length_defaults(c, 'LENGTH-DEFAULTS', PA, 'build_disl_array', ('bwidth', 'cutoff'), floor=2)])
